@@ -51,10 +51,16 @@ def sh(cmd, cwd=None, env=None, timeout=None, stdin=None):
 
 
 class BuildLock:
+    """exclusive while Generated.v is rewritten and the Coq tree is built; shared while case shards are
+    compiled against the built tree (so that no other check rebuilds the tree under them)"""
+
+    def __init__(self, shared=False):
+        self.shared = shared
+
     def __enter__(self):
         os.makedirs(WORK, exist_ok=True)
-        self.f = open(os.path.join(WORK, "build.lock"), "w")
-        fcntl.flock(self.f, fcntl.LOCK_EX)
+        self.f = open(os.path.join(WORK, "build.lock"), "a")
+        fcntl.flock(self.f, fcntl.LOCK_SH if self.shared else fcntl.LOCK_EX)
         return self
 
     def __exit__(self, *a):
